@@ -22,6 +22,8 @@ pub enum ROp {
     EpochHash,
     /// explicit flush of the instance's cache
     Flush,
+    /// real-time pause in ms (lets short-lived cache entries expire)
+    Pause(u8),
 }
 #[derive(Serialize, Deserialize, Clone, Copy, Debug, PartialEq, Eq)]
 pub enum RInst {
@@ -42,6 +44,7 @@ pub enum Obs {
     Audit(u64, u64, Result<akd::AppendOnlyProof, String>),
     EpochHash(Result<akd::EpochHash, String>),
     Flushed,
+    Paused,
 }
 
 pub struct World {
@@ -81,6 +84,10 @@ async fn do_op(rd: &dyn Reader, st: Option<&StorageManager<VDb>>, w: &World, op:
                 st.flush_cache().await;
             }
             Obs::Flushed
+        }
+        ROp::Pause(ms) => {
+            std::thread::sleep(std::time::Duration::from_millis((*ms).min(45) as u64));
+            Obs::Paused
         }
     }
 }
@@ -146,6 +153,9 @@ pub struct LagCase {
     pub ops: Vec<ROp>,
     pub poll: bool,
     pub post: Vec<ROp>,
+    /// item lifetime of the reader's cache in ms (0 = default 30 s); with Pause ops this makes entries expire at different moments
+    #[serde(default)]
+    pub life_ms: u8,
 }
 #[derive(Default)]
 pub struct LagStats {
@@ -177,7 +187,7 @@ async fn lag_case<TC: Tcfg>(case: &LagCase, st: &mut LagStats) -> R {
     labels.sort();
     labels.dedup();
     // the reader instance
-    let rst = reader_manager(&vdb, case.inst);
+    let rst = if case.life_ms > 0 && case.inst != RInst::RoUncached { manager(vdb.clone(), CacheKind::Custom(case.life_ms.max(20) as u16, 0, 500)) } else { reader_manager(&vdb, case.inst) };
     let ro = new_ro::<TC, _>(rst.clone(), &key, ParKind::Disabled).await?;
     let full;
     let rd: &dyn Reader = if case.inst == RInst::DirCached {
@@ -284,7 +294,29 @@ pub fn lag_strategy() -> impl Strategy<Value = LagCase> {
         any::<bool>(),
         proptest::collection::vec(rop_strategy(), 1..5),
     )
-        .prop_map(|(cfg, hist, created_after, inst, warm, ops, poll, post)| LagCase { cfg, hist, created_after, inst, warm, ops, poll, post })
+        .prop_map(|(cfg, hist, created_after, inst, warm, ops, poll, post)| LagCase { cfg, hist, created_after, inst, warm, ops, poll, post, life_ms: 0 })
+}
+/// short-lived reader cache with real pauses: entries cached at different moments expire at different moments
+pub fn expiry_lag_strategy() -> impl Strategy<Value = LagCase> {
+    (lag_strategy(), 25u8..60, 8u8..30, 8u8..40, any::<bool>()).prop_map(|(mut c, life, p1, p2, again)| {
+        c.life_ms = life;
+        if c.inst == RInst::RoUncached {
+            c.inst = RInst::RoCached;
+        }
+        c.poll = false;
+        // epoch record cached at creation; nodes cached p1 ms later; requests p2 ms after the writer moved on
+        c.warm.insert(0, ROp::Pause(p1));
+        c.warm.push(ROp::Lookup(0));
+        c.warm.push(ROp::Lookup(40000));
+        c.ops.insert(0, ROp::Pause(p2));
+        c.ops.push(ROp::EpochHash);
+        if again {
+            c.ops.push(ROp::Pause(p1));
+            c.ops.push(ROp::Lookup(0));
+            c.ops.push(ROp::EpochHash);
+        }
+        c
+    })
 }
 
 // ------------------------------------------------------------------ part 2: readers interleaved with a writer
@@ -571,6 +603,17 @@ pub fn run(eng: &mut Engine) {
         eng.tier.pick(3000, 40_000),
         lag_strategy,
         lag_check,
+    );
+    eng.prop_part(
+        "expiring_lagging",
+        "the lagging scenario with a short-lived reader cache (item lifetime 25-60 ms) and REAL pauses: the epoch record is cached at creation, tree nodes 8-30 ms later, the writer publishes, and requests follow 8-40 ms later - so entries cached at different moments expire at different moments; same oracle (timing decides only which code path is taken, never the verdict); every case counts as non-trivial; distinct by case",
+        eng.tier.pick(700, 8000),
+        expiry_lag_strategy,
+        |c: &LagCase, ctx: &mut Ctx| {
+            let r = lag_check(c, ctx);
+            ctx.nontrivial(fp_json(c));
+            r
+        },
     );
     eng.prop_part(
         "concurrent",
